@@ -77,6 +77,14 @@ pub fn gen_batch_case(check: &str, seed: u64, family: &str, tier: Tier, with_fil
         let mut c = super::c08::gen_case(seed, "schedule", tier);
         c.check = check.to_string();
         c.family = family.to_string();
+        let mut r2 = Rng::new(seed ^ fnv64("two-callers"));
+        if c.batches.len() == 1 && c.batches[0].len() >= 2 && r2.chance(0.4) {
+            // two caller threads share the application (and its prediction caches): each runs half of the batch
+            let all = c.batches.remove(0);
+            let k = all.len() / 2;
+            c.batches = vec![all[..k].to_vec(), all[k..].to_vec()];
+            c.params = json!({"two_callers": true});
+        }
         return c;
     }
     let mut r = Rng::new(seed ^ fnv64(check));
@@ -152,6 +160,7 @@ pub fn gen_batch_case(check: &str, seed: u64, family: &str, tier: Tier, with_fil
         w.per_run_sinks = Some((0..batches.len()).map(|_| r.below(top) as u8).collect());
         w.policies_at_run_level = false;
     }
+    let two_callers = w.out.is_none() && batches.len() == 2 && r.chance(0.5);
     let mut simcfg = gen_simcfg(&mut r);
     if family == "faults" {
         simcfg.faults = crate::sim::F_SHORT_WRITE | crate::sim::F_EINTR_WRITE;
@@ -168,7 +177,7 @@ pub fn gen_batch_case(check: &str, seed: u64, family: &str, tier: Tier, with_fil
         batches,
         simcfg,
         recorded: None,
-        params: Value::Null,
+        params: if two_callers { json!({"two_callers": true}) } else { Value::Null },
     }
 }
 
@@ -387,6 +396,7 @@ impl Check for C06 {
         let obs = execute(case, ExecOpts { reference: true, trace: false, log_clock: false, explore_build: false }, Box::new(probe), fatal_fd);
         let (violations, mut reach, nontrivial) = if case.family == "cli" || case.family == "sink-faults" { super::c19::judge(case, &obs) } else { judge(case, &obs) };
         reach.insert("workers_gt1".into(), (case.workers > 1) as u64);
+        reach.insert("two_caller_threads".into(), case.params.get("two_callers").and_then(|x| x.as_bool()).unwrap_or(false) as u64);
         world_reach(&case.world, &mut reach);
         reach.insert("preemptions".into(), obs.stats.preemptions);
         let sig = fnv64(&format!("{}|{}", serde_json::to_string(&case.batches).unwrap(), obs.stats.sched_hash));
